@@ -458,3 +458,10 @@ class _SubPy:
 
 SUBCHECKS["pyapi"] = _SubPy()
 REPLAY["pyapi"] = lambda c: explore_pyapi(c).fails
+
+# results must not depend on which library calls were made earlier in the process (see mc/order.py): the series tables are process-wide
+from .. import order as _order  # noqa: E402
+
+_ORDER = _order.OrderSub("C06", "lie", lambda k: k.split('/')[-1] in ("exp", "log", "a_left_jacobian", "a_right_jacobian_inv", "from_Matrix", "Ad"))
+SUBCHECKS["order"] = _ORDER
+REPLAY["order"] = _ORDER.replay
